@@ -39,6 +39,16 @@ def checkStep (ctx : Ctx) (label : Option String) (vals : List Val) (ix : Nat) (
 def checksSteps (ctx : Ctx) (label : Option String) (vals : List Val) (cs : List CheckSpec) : List Err :=
   (cs.zipIdx.map (fun p => checkStep ctx label vals p.2 p.1)).flatten
 
+/-- `check_dtype` -/
+def dtypeErrs (runs : Bool) (ctx : Ctx) (label : Option String) (dt : Option DType) (phys : DType)
+    (vals : List Val) : List Err :=
+  match dt with
+  | none => []
+  | some t =>
+    if runs && !dtypeOkImpl t phys vals then
+      [{ reason := .wrongDatatype, ctx, label,
+         cells := if t == .str then cellsAt label vals (dtypeFailPositions vals) else [] }] else []
+
 /-- `ArraySchemaBackend.run_checks_and_handle_errors`: name, nullable, unique,
 dtype, checks — in that order, each gated by its scope. -/
 def fieldErrors (T : ScopeTable) (d : Depth) (ctx : Ctx) (spec : ColSpec)
@@ -55,13 +65,7 @@ def fieldErrors (T : ScopeTable) (d : Depth) (ctx : Ctx) (spec : ColSpec)
   let eUniq : List Err :=
     if optRuns T.fieldUnique d && spec.unique && !dupPos.isEmpty then
       [{ reason := .seriesContainsDuplicates, ctx, label, cells := cellsAt label vals dupPos }] else []
-  let eDtype : List Err :=
-    match spec.dtype with
-    | none => []
-    | some t =>
-      if optRuns T.fieldDtype d && !dtypeOkImpl t phys vals then
-        [{ reason := .wrongDatatype, ctx, label,
-           cells := if t == .str then cellsAt label vals (dtypeFailPositions vals) else [] }] else []
+  let eDtype : List Err := dtypeErrs (optRuns T.fieldDtype d) ctx label spec.dtype phys vals
   let eChecks : List Err :=
     if optRuns (if ctx == .column then T.columnChecks else T.fieldChecks) d then
       checksSteps ctx label vals spec.checks else []
